@@ -277,7 +277,11 @@ def main(argv):
         # --- long streams: the feeder->collector queue (util::UnboundedSingleQueue) works in pages of 1023
         #     entries; document counts around multiples of the page size, all at once and with stdin
         #     stalling exactly at a page boundary (the collector then catches up with the feeder there)
+        stream_hangs = [0]
+
         def check_stream(tag, docs, st, so, se, how):
+            if st == "timeout":
+                stream_hangs[0] += 1
             c.count((tag, len(docs)), nontrivial=True, bucket="long-stream/" + tag.split(":")[0])
             rep = {"op": "b64filter", "child": "child_id.py", "documents": len(docs), "first_documents": [d.decode("latin1") for d in docs[:3]],
                    "status": st, "stdout_lines": so.count(b"\n"), "stderr": se.decode("utf-8", "replace")[-300:], "how": how}
@@ -316,6 +320,8 @@ def main(argv):
             return ds
         idc = os.path.join(CHILDREN, "child_id.py")
         for n in ((1022, 1023, 1024, 2046, 2047, 3500) if quick else (1021, 1022, 1023, 1024, 1025, 2045, 2046, 2047, 2048, 3069, 3500, 5200)):
+            if stream_hangs[0] >= 2:
+                break
             docs = mkdocs(n, n)
             inp = b"".join(pyb64.b64encode(d) + b"\n" for d in docs)
             st, so, se = run_limited([tool, idc], stdin=inp, timeout=60)
@@ -334,6 +340,8 @@ def main(argv):
                 prev = cpos
             parts.append(b"".join(enc[prev:]))
             for child in (idc, "cat"):
+                if stream_hangs[0] >= 2:
+                    break
                 st, so, se = run_staged([tool, child], parts, pause=1.2, timeout=60)
                 check_stream("stalled-stdin:%s" % os.path.basename(child), docs, st, so, se,
                              "%d documents, stdin pauses 1.2 s after document(s) %s | b64filter %s" % (n, list(cuts), os.path.basename(child)))
